@@ -16,6 +16,7 @@ mod c13;
 mod c15;
 mod c16;
 mod c18;
+mod c19;
 mod c20;
 
 #[global_allocator]
@@ -66,6 +67,8 @@ fn main() {
         ("c16", "run") => c16::run(),
         ("c18", "gen") => c18::gen(seed, thorough),
         ("c18", "run") => c18::run(thorough),
+        ("c19", "gen") => c19::gen(seed, thorough),
+        ("c19", "run") => c19::run(),
         ("c20", "gen") => c20::gen(seed, thorough),
         ("c20", "run") => c20::run(),
         _ => {
